@@ -697,12 +697,9 @@ impl<T: Clone + Eq + Debug + Default> WrappedBlock<T> {
         self.word.push(elt);
     }
 
-    fn text_len(&self) -> usize {
-        self.text.len() + self.line.len + self.wordlen
-    }
-
     fn is_empty(&self) -> bool {
-        self.text_len() == 0
+        // Not decided by width: text made of zero-width characters is content too.
+        self.text.is_empty() && self.line.is_empty() && self.word.is_empty()
     }
 }
 
